@@ -294,7 +294,7 @@ def State.loadMeta (s : State) (b k : Bytes) : Option Meta :=
     | some (.good m) => some m
     | some .corrupt => none
 
-/-- `verify_upload_id` (38336b0): `NoSuchUpload` when the upload record does not exist, `AccessDenied` when it names other
+/-- `verify_upload_id` (4609ab3): `NoSuchUpload` when the upload record does not exist, `AccessDenied` when it names other
     credentials; `none` = the upload exists and belongs to the requester -/
 def State.verify (s : State) (who : Who) (id : Nat) : Option Err :=
   match alLookup id s.uploads with
@@ -540,7 +540,7 @@ def step (H : Hashes) (dirLen : Nat) (s : State) : Op → State × Resp
       if sideTooLong b k true then (s, .err .InternalError)
       else ({ s1 with upMetas := alInsert (b, k, id) m s1.upMetas }, .created id)
   | .uploadPart who _b _k u n c =>
-    -- 531fc88: `!(1..=10_000).contains(&part_number)`
+    -- 205d9a8: `!(1..=10_000).contains(&part_number)`
     if n < 1 ∨ n > 10000 then (s, .err .InvalidArgument)
     else match u with
       | none => (s, .err .NoSuchUpload)                           -- not a UUID: no such upload
@@ -549,7 +549,7 @@ def step (H : Hashes) (dirLen : Nat) (s : State) : Op → State × Resp
         | some e => (s, .err e)
         | none => ({ s with parts := alInsert (id, n) c s.parts }, .part (some (etagOf H c)))
   | .uploadPartCopy who _b _k u n sb sk range =>
-    -- 531fc88: the part number is checked first, as in `upload_part`
+    -- 205d9a8: the part number is checked first, as in `upload_part`
     if n < 1 ∨ n > 10000 then (s, .err .InvalidArgument)
     else
     match u with
@@ -575,7 +575,7 @@ def step (H : Hashes) (dirLen : Nat) (s : State) : Op → State × Resp
                 let body := (c.drop start).take cl
                 ({ s with parts := alInsert (id, n) body s.parts }, .part (some (etagOf H body)))
   | .listParts _who _b _k u =>
-    -- 38336b0: the upload must exist (`check_upload_exists`; whose it is does not matter here)
+    -- 4609ab3: the upload must exist (`check_upload_exists`; whose it is does not matter here)
     match u with
     | none => (s, .err .NoSuchUpload)
     | some id =>
@@ -607,11 +607,11 @@ def step (H : Hashes) (dirLen : Nat) (s : State) : Op → State × Resp
                 if !ok then (s1, .err .InternalError)
                 else
                   -- then the upload's metadata becomes the object's — without any, a metadata file left by the object it
-                  -- replaces is removed (cf67827) —
+                  -- replaces is removed (47e9b00) —
                   let s2 := match (if sideTooLong b k true then none else alLookup (b, k, id) s1.upMetas) with
                     | none => if sideTooLong b k false then s1 else { s1 with metas := alErase (b, k) s1.metas }
                     | some m => { s1 with metas := alInsert (b, k) (.good m) s1.metas, upMetas := alErase (b, k, id) s1.upMetas }
-                  -- the checksum record is reset (`save_internal_info` of an empty record, cf67827); then the part files and
+                  -- the checksum record is reset (`save_internal_info` of an empty record, 47e9b00); then the part files and
                   -- the upload record are removed
                   if sideTooLong b k false then (s2, .err .InternalError)
                   else
